@@ -109,6 +109,7 @@ type Elem struct {
 	Literal    bool     `json:",omitempty"` // value: written as an untyped constant literal (not logged)
 	Set        string   `json:",omitempty"`
 	Paren      bool     `json:",omitempty"` // the element is written in parentheses: (setaa), (kessoku.Provide(f))
+	StructAlias string  `json:",omitempty"` // struct: the expanded type is spelled through this alias (declared in the types file)
 	Hoist      string   `json:",omitempty"` // non-set element kept in a package-level variable of this name and referenced through it
 	Inline     []Elem   `json:",omitempty"`
 }
@@ -142,6 +143,7 @@ type Case struct {
 	PkgNames []string `json:",omitempty"` // extra package-level identifiers declared in the user package
 	OtherFilesPlain bool `json:",omitempty"` // types/providers files sort before the declaration files and import the aliased external packages under their plain names
 	NamesGenerated bool `json:",omitempty"` // names.go carries another tool's "Code generated ... DO NOT EDIT." header
+	ExtraAliases [][2]string `json:",omitempty"` // type alias declarations of the user package: {alias, type expression}
 	PkgFuncs []string `json:",omitempty"` // extra package-level functions (func X() int) that no declaration refers to
 	Features []string `json:",omitempty"`
 	KAlias   string   `json:",omitempty"` // alias for the kessoku import
